@@ -207,7 +207,7 @@ func (ctrler *RigoApp) InitChain(req abcitypes.RequestInitChain) abcitypes.Respo
 			addr, addr, // self staking
 			val.Power,
 			1,
-			bytes.ZeroBytes(32), // 0x00... txhash
+			crypto.DefaultHash(pubBytes), // no staking tx: a txhash (ledger key) of its own for each validator
 		)
 		initStakes[i] = &stake.InitStake{
 			pubBytes,
